@@ -48,7 +48,7 @@ func whose(b []byte) string {
 	return fmt.Sprintf("unidentified (%x…)", b[:min(len(b), 16)])
 }
 
-var c07Actions = []string{"full", "full+reread", "abandon+close", "over-limit", "peer-close-mid-compressed", "peer-violation-mid-message", "ctx-expiry-mid-message", "closenow-mid-message"}
+var c07Actions = []string{"full", "full+reread", "abandon+close", "over-limit", "peer-close-mid-compressed", "peer-violation-mid-message", "ctx-expiry-mid-message", "closenow-mid-message", "backref-probe"}
 
 func runC07(r *Run) {
 	t := r.Tape
@@ -93,7 +93,7 @@ func runC07(r *Run) {
 			for i := 0; i < nm; i++ {
 				mp := msgPlan{n: []int{40, 200, 1000, 5000, 20000, 40000}[t.Draw(6)] + t.Draw(8), comp: t.Pct(75)}
 				mp.frags = SplitFrags(t, mp.n)
-				mp.action = t.Weighted(6, 5, 2, 1, 2, 2, 1, 2)
+				mp.action = t.Weighted(6, 5, 2, 1, 2, 2, 1, 2, 3)
 				mp.reread = 1 + t.Draw(3)
 				mp.j = 1 + t.Draw(mp.n)
 				mp.buf = []int{512, 7, 64, 4096, 32768}[t.Draw(5)]
@@ -156,14 +156,36 @@ func runC07(r *Run) {
 						r.S.Count("probe.write-failed-midway")
 						return
 					}
+					hist := 0 // plaintext bytes a back-reference of the peer may legally reach
 					for seq, mp := range cp.msgs {
+						if mp.action == 8 && (comp == nil || hist >= 32768-258) {
+							mp.action = 0
+						}
 						sig := fmt.Sprintf("action=%s,compressed=%v", c07Actions[mp.action], mp.comp && comp != nil)
 						want := tagged(cp.id, 0, seq, mp.n)
 						frags := mp.frags
+						if mp.action == 8 {
+							// A message whose DEFLATE stream starts with a match that reaches
+							// further back than anything this connection has received: a clean
+							// window must refuse it; a window (or decompressor) polluted by
+							// another connection would deliver that connection's bytes.
+							dist := hist + 1 + mp.j%(32768-hist)
+							probe := wsref.BackrefProbe(nil, dist, []int{258, 3, 100}[mp.reread%3])
+							want = nil
+							pf := wsref.Frame{Fin: true, Opcode: wsref.OpBinary, Rsv1: true, Payload: probe}
+							peer.Inject(peer.Encode(pf))
+							r.S.Count("probe.backref-probe")
+						}
+						if mp.comp && comp != nil && rc.PeerTake {
+							hist += mp.n
+						}
 						if mp.action == 4 || mp.action == 5 {
 							frags = []int{mp.n / 2, mp.n - mp.n/2}
 						}
-						fs := MessageFrames(MsgSpec{Typ: wsref.OpBinary, Data: want, Compress: mp.comp, Frags: frags}, comp)
+						var fs []wsref.Frame
+						if mp.action != 8 {
+							fs = MessageFrames(MsgSpec{Typ: wsref.OpBinary, Data: want, Compress: mp.comp, Frags: frags}, comp)
+						}
 						switch mp.action {
 						case 4: // Close frame between the fragments
 							cl := wsref.Frame{Fin: true, Opcode: wsref.OpClose, Payload: wsref.ClosePayload(1000, fmt.Sprintf("conn%d", cp.id))}
@@ -258,6 +280,11 @@ func runC07(r *Run) {
 								}
 								r.S.Count("probe.reread-after-eof")
 							}
+						case 8:
+							if rerr == nil || rerr == io.EOF {
+								r.Violate("backref-beyond-history-accepted", sig, "conn %d message %d: a compressed message referring back beyond this connection's history was read without error (%d bytes, err %v)", cp.id, seq, len(got), rerr)
+							}
+							closed = true
 						case 2:
 							c.Close(websocket.StatusNormalClosure, fmt.Sprintf("conn%d", cp.id))
 							closed = true
